@@ -16,12 +16,10 @@ impl InfixFilter {
                 timestamp_from_ts_infix(infix, infix_format).is_ok()
             }
             InfixFilter::Numbrs => {
-                if infix.len() > 2 {
-                    let mut chars = infix.chars();
-                    chars.next().unwrap() == 'r' && chars.next().unwrap().is_ascii_digit()
-                } else {
-                    false
-                }
+                // 'r', followed by digits only
+                infix.len() > 2
+                    && infix.starts_with('r')
+                    && infix[1..].bytes().all(|b| b.is_ascii_digit())
             }
             #[cfg(test)]
             InfixFilter::StartsWth(s) => infix.starts_with(s),
